@@ -35,6 +35,7 @@ def pendOf (p : Pend) : Option (Tag × Name) :=
   | .slow (some i) _ => some (p.tag, sname i)
   | .del i true => some (p.tag, sname i)
   | .cls i => some (p.tag, sname i)
+  | .upl i _ _ => some (p.tag, sname i)
   | _ => none
 
 /-- the monitor's `run` entry -/
@@ -56,18 +57,20 @@ def sidOf (p : Pend) : Option Nat :=
   | .run i _ => some i
   | .del i _ => some i
   | .cls i => some i
+  | .upl i _ _ => some i
 
 /-! ### entries -/
 
 /-- The model's entry between the labels of an operation and the settling: nothing is waiting for
 publication, no `initialize` is in flight, the counters agree with the asynchronous requests
-(`ns` parked POSTs, `nr` handlers without POST), no timer is overdue. -/
+(`ns` parked POSTs, `nr` handlers without POST; the POSTs in progress are the parked ones and those whose
+body is still on its way, `e.upl`), no timer is overdue. -/
 structure EOkQ (cfg : Cfg) (now ns nr : Nat) (e : Sess) : Prop where
   pending : e.pending = none
   creating : e.creating = false
   initBusy : e.initBusy = 0
   busy : e.busy = ns + nr
-  posts : e.posts = ns
+  posts : e.posts = ns + e.upl
   inMap : e.inMap = !e.removed
   tmr : e.removed = false → (e.timer = .nil ↔ cfg.timeout = 0)
   armed : e.removed = false → e.closing = false → e.timer ≠ .nil → e.refs = 0 → e.timer.isArmed = true
@@ -82,8 +85,8 @@ structure ERelPre (cfg : Cfg) (ns nr : Nat) (e : Sess) (a : MSess) : Prop where
   owner : a.owner = ownerOf e.owner
   dead : a.life = .dead → e.removed = true
   live : a.life = .live ↔ (e.removed = false ∧ e.closing = false)
-  cnt : a.life = .live → a.posts = ns ∧ a.running = nr
-  idle : a.life = .live → ns = 0 → cfg.timeout ≠ 0 → e.timer = .armed (a.idleSince + cfg.timeout)
+  cnt : a.life = .live → a.posts = ns + e.upl ∧ a.running = nr
+  idle : a.life = .live → ns = 0 → e.upl = 0 → cfg.timeout ≠ 0 → e.timer = .armed (a.idleSince + cfg.timeout)
 
 structure ERel (cfg : Cfg) (ns nr : Nat) (e : Sess) (a : MSess) : Prop extends ERelPre cfg ns nr e a where
   removed : e.removed = true → a.life = .dead
@@ -110,6 +113,7 @@ structure PendOk (d : RState) : Prop where
     | .run _ slot => p.tag = .r slot ∧ 1 ≤ slot ∧ slot ≤ d.nslow ∧ slot ∉ d.released
     | .del i _ => (∃ n, p.tag = .d n ∧ n ≤ d.nasync) ∧ isLive d.st i = true
     | .cls i => (∃ n, p.tag = .c n ∧ n ≤ d.nasync) ∧ isLive d.st i = true
+    | .upl _ n _ => p.tag = .u n ∧ n ≤ d.nasync
   minted : ∀ p ∈ d.pend, ∀ i, sidOf p = some i → i < d.st.next
   sids : ∀ p ∈ d.pend, (sidOf p).isSome = true    -- (stateful endpoint: every request belongs to a session)
   relLe : ∀ k ∈ d.released, k ≤ d.nslow
